@@ -277,7 +277,11 @@ def _subst(node, mapping):
         return node
     if node.get("k") == "path" and (node.get("res") or {}).get("dk") == "Local" and node["res"].get("id") in mapping:
         return copy.deepcopy(mapping[node["res"]["id"]])
-    return {k: _subst(v, mapping) for k, v in node.items()}
+    out = {k: _subst(v, mapping) for k, v in node.items()}
+    # `*index += 1` with `index := &mut index`  ->  `index += 1`
+    if out.get("k") == "unary" and out.get("op") == "Deref" and isinstance(out.get("a"), dict) and out["a"].get("k") == "addr" and isinstance(node.get("a"), dict) and node["a"].get("k") == "path":
+        return out["a"]["e"]
+    return out
 
 
 def inline_hir(node, new_hir, counter, depth=0):
@@ -327,6 +331,130 @@ def inline_hir(node, new_hir, counter, depth=0):
     return node
 
 
+def _ctor(e):
+    while isinstance(e, dict) and e.get("k") in ("use", "paren"):
+        e = e.get("e")
+    if not isinstance(e, dict):
+        return None, []
+    if e.get("k") == "call" and isinstance(e.get("f"), dict) and e["f"].get("k") == "path" and str((e["f"].get("res") or {}).get("dk", "")).startswith("Ctor"):
+        r = e["f"]["res"]
+        return r.get("of") or r.get("path"), list(e.get("args") or [])
+    if e.get("k") == "path" and str((e.get("res") or {}).get("dk", "")).startswith("Ctor"):
+        return e["res"].get("of") or e["res"].get("path"), []
+    return None, []
+
+
+def _diverges(e):
+    """the expression always leaves the enclosing statement sequence (break / return / continue at its end)"""
+    if not isinstance(e, dict):
+        return False
+    k = e.get("k")
+    if k in ("break", "ret", "continue"):
+        return True
+    if k == "semi":
+        return _diverges(e.get("e"))
+    if k == "block":
+        last = e.get("expr") if e.get("expr") is not None else ((e.get("stmts") or [None])[-1])
+        return _diverges(last)
+    if k == "if":
+        return e.get("else") is not None and _diverges(e.get("then")) and _diverges(e.get("else"))
+    return False
+
+
+def _select(arms, v):
+    """the arm body (parameters bound) a `match` / `if let` runs for the value expression v when v is a constructor application
+    whose variant decides the arm; (False, None) when that cannot be told"""
+    c, cargs = _ctor(v)
+    if c is None:
+        return False, None
+    for pat, body in arms:
+        q = pat
+        while isinstance(q, dict) and q.get("k") in ("ref", "deref", "box"):
+            q = q.get("pat")
+        if not isinstance(q, dict):
+            return False, None
+        if q.get("k") == "wild":
+            return True, body
+        if q.get("k") == "bind" and not q.get("sub"):
+            return True, (_subst(body, {q["id"]: v}) if body is not None else None)
+        if q.get("k") in ("tstruct", "path"):
+            pv = (q.get("res") or {}).get("of") or (q.get("res") or {}).get("path") or (q.get("res") or {}).get("name")
+            if pv != c:
+                continue
+            mapping = {}
+            subs = q.get("pats") or []
+            if len(subs) != len(cargs):
+                return False, None
+            for sp, a in zip(subs, cargs):
+                while isinstance(sp, dict) and sp.get("k") in ("ref", "deref"):
+                    sp = sp.get("pat")
+                if sp.get("k") == "wild":
+                    continue
+                if sp.get("k") == "bind" and not sp.get("sub"):
+                    mapping[sp["id"]] = a
+                else:
+                    return False, None
+            return True, (_subst(body, mapping) if body is not None and mapping else body)
+        return False, None
+    return False, None
+
+
+def _fuse_consumer(st, parts):
+    """`if let Some(x) = helper(..) { break x }` / `match helper(..) { .. }` as a statement, with the helper inlined: every
+    `return V` of the helper and its final value are routed straight into the arm they select (V must be a constructor application
+    and the arm taken by a `return` in the middle must leave the statement sequence, as the original did by returning to a caller
+    that then leaves). The caller-side decision of what a helper's answer means is thereby visible where the answer is produced."""
+    e = st.get("e") if isinstance(st, dict) and st.get("k") == "semi" else st
+    if not isinstance(e, dict):
+        return None
+    if e.get("k") == "if" and isinstance(e.get("cond"), dict) and e["cond"].get("k") == "letexpr":
+        init, arms = e["cond"].get("init"), [(e["cond"]["pat"], e.get("then")), ({"k": "wild"}, e.get("else"))]
+    elif e.get("k") == "match" and e.get("src") == "Normal" and not any(a.get("guard") for a in e.get("arms") or []):
+        init, arms = e.get("scrut"), [(a["pat"], a["body"]) for a in e["arms"]]
+    else:
+        return None
+    pr = parts(init)
+    if not pr or pr[1] is None:
+        return None
+    pre, tailv = pr
+    def rets(n, acc):
+        if isinstance(n, list):
+            for x in n:
+                rets(x, acc)
+        elif isinstance(n, dict):
+            if n.get("k") == "closure":
+                return
+            if n.get("k") == "ret":
+                acc.append(n)
+                return
+            for x in n.values():
+                if isinstance(x, (dict, list)):
+                    rets(x, acc)
+    found = []
+    rets(pre, found)
+    repl = {}
+    for r in found:
+        ok, body = _select(arms, r.get("e"))
+        if not ok or body is None or not _diverges(body):
+            return None
+        repl[id(r)] = body
+    ok, tb = _select(arms, tailv)
+    if not ok:
+        if not found:
+            return None
+        # the helper's final value is not a literal constructor: keep the consumer for it
+        tb = {**e, **({"cond": {**e["cond"], "init": tailv}} if e.get("k") == "if" else {"scrut": tailv})}
+    def rw(n):
+        if isinstance(n, list):
+            return [rw(x) for x in n]
+        if isinstance(n, dict):
+            if id(n) in repl:
+                return copy.deepcopy(repl[id(n)])
+            return {k_: rw(v_) for k_, v_ in n.items()}
+        return n
+    return rw(pre), tb
+
+
 def hoist_inlined(node):
     """`let x = { let p = a; s1; s2; tail };` (an inlined helper that is the whole initialiser / statement / tail of a block) ->
     `let p = a; s1; s2; let x = tail;`. Variables are identified by id, so widening their scope cannot capture anything; rules
@@ -357,6 +485,10 @@ def hoist_inlined(node):
         return pre, inner
     out = []
     for st in node["stmts"]:
+        fused = _fuse_consumer(st, parts)
+        if fused is not None:
+            out += fused[0] + ([fused[1]] if fused[1] is not None else [])
+            continue
         if isinstance(st, dict) and st.get("k") == "let" and st.get("els") is None:
             pr = parts(st.get("init"))
             if pr and pr[1] is not None:
@@ -378,6 +510,10 @@ def hoist_inlined(node):
             continue
         out.append(st)
     node["stmts"] = out
+    fused = _fuse_consumer(node.get("expr"), parts)
+    if fused is not None:
+        node["stmts"] = node["stmts"] + fused[0]
+        node["expr"] = fused[1]
     pr = parts(node.get("expr"))
     if pr:
         node["stmts"] = node["stmts"] + pr[0]
